@@ -257,13 +257,7 @@ ReverseMaps(d) ==
 \* F7: a node reached through an alias had already been rewritten in place
 \*     by its first visit (AliasRevisitOfRetaggedNode)
 DevAliasRevisit == shared
-\* F8: recognising an enum retags a bool scalar to str while a Union is still
-\*     being evaluated, so Union[E, bool] and Union[bool, E] differ
-DevEnumBoolUnion ==
-    \E i \in DOMAIN doc0.h :
-        /\ doc0.h[i].k = "s" /\ doc0.h[i].t = "bool"
-        /\ \E c \in ClassNames : IsReg(c) /\ Cls(c).kind = "enum"
-              /\ \E j \in DOMAIN Cls(c).members : Cls(c).members[j] = doc0.h[i].v
+
 (* ======================= the properties ================================= *)
 \* C01: a loaded value conforms to the declared type all the way down ...
 TypeSafe ==
@@ -278,7 +272,7 @@ CtorArgsConform ==
 
 \* C02 / C03 / C13 / C18: the pipeline computes the declarative reference
 MatchesReference ==
-    Terminal /\ ~DevAliasRevisit /\ ~DevEnumBoolUnion =>
+    Terminal /\ ~DevAliasRevisit =>
         LET ref == RefDoc(doc0) IN
         /\ (res[1] = "VAL") = (ref[1] = "VAL")
         /\ res[1] = "VAL" => res[2] = ref[2]
